@@ -765,7 +765,15 @@ pub fn run_property(prop: &Property, thorough: bool, seed: u64, rep: &mut Report
         cslot.publish(prop.parts.iter().position(|p| p.name == rf.part).unwrap_or(0), rf.exh, &rf.data);
         let (v, d) = replay_case(prop, &rf, thorough);
         cslot.idle();
-        if !rf.case.is_empty() && !d.is_empty() && format!("{:016x}", fnv1a(&d)) != rf.case {
+        if !rf.case.is_empty() && !d.is_empty() && format!("{:016x}", fnv1a(&d)) != rf.case && std::env::var("VERIF_REBLESS").is_ok() {
+            // development aid, never set in a registered command: after a deliberate change of how a case is *rendered*
+            // (not of what it is) accept the new rendering; the operator compares the old and new text printed here
+            let mut j: serde_json::Value = serde_json::from_str(&std::fs::read_to_string(f).unwrap_or_default()).unwrap_or_default();
+            rep.line(&format!("harness: REBLESS {}\n  old: {}\n  new: {}", f.display(), j["case"].as_str().unwrap_or("").replace('\n', " | "), d.replace('\n', " | ")));
+            j["case"] = json!(d);
+            j["case_fnv1a"] = json!(format!("{:016x}", fnv1a(&d)));
+            let _ = std::fs::write(f, serde_json::to_string_pretty(&j).unwrap());
+        } else if !rf.case.is_empty() && !d.is_empty() && format!("{:016x}", fnv1a(&d)) != rf.case {
             rep.line(&format!("harness: corpus file {} no longer decodes to its recorded case (generator changed) — regenerate it", f.display()));
             return 2;
         }
